@@ -22,7 +22,7 @@ def log(*a):
 
 
 def sh(cmd, **kw):
-    return subprocess.run(cmd, shell=isinstance(cmd, str), stdout=subprocess.PIPE, stderr=subprocess.STDOUT, text=True, **kw)
+    return subprocess.run(cmd, shell=isinstance(cmd, str), stdout=subprocess.PIPE, stderr=subprocess.STDOUT, text=True, errors="replace", **kw)
 
 
 def file_hash(paths, extra=""):
@@ -179,7 +179,7 @@ def run_batch(binary, prop, tier, first, count, outdir, workers=NCPU, extra=(), 
 
     def start(frm, n):
         cmd = [binary, "run", "--prop", prop, "--tier", tier, "--from", str(frm), "--count", str(n), "--stride", str(workers), "--outdir", outdir] + list(extra)
-        p = subprocess.Popen(cmd, stdout=subprocess.PIPE, stderr=subprocess.PIPE, text=True, env=env)
+        p = subprocess.Popen(cmd, stdout=subprocess.PIPE, stderr=subprocess.PIPE, text=True, errors="replace", env=env)
         return p
 
     active = [(start(f, n), f, n) for f, n in pending]
@@ -226,7 +226,7 @@ def run_batch(binary, prop, tier, first, count, outdir, workers=NCPU, extra=(), 
 
 def exec_plan(binary, path, extra=(), env=None, timeout=600):
     """Fresh-process execution of a plan. Returns (violation, signature, fingerprint, output)."""
-    r = subprocess.run([binary, "exec", path] + list(extra), stdout=subprocess.PIPE, stderr=subprocess.PIPE, text=True, env=env, timeout=timeout)
+    r = subprocess.run([binary, "exec", path] + list(extra), stdout=subprocess.PIPE, stderr=subprocess.PIPE, text=True, errors="replace", env=env, timeout=timeout)
     m = re.search(r"^RESULT violation=(\d) fingerprint=(\w+) signature=(.*)$", r.stdout, re.M)
     if r.returncode < 0:
         return True, "CRASH:signal%d" % (-r.returncode), "crash", r.stdout + r.stderr
@@ -274,7 +274,7 @@ def gate_and_report(prop, binary, batch, outdir, extra=(), env=None, max_reports
                 continue
         # (b) minimise
         final = os.path.join(VERIF, "replays", "%s-%d.plan" % (prop, seed))
-        m = subprocess.run([binary, "min", v["path"], final] + list(extra), stdout=subprocess.PIPE, stderr=subprocess.STDOUT, text=True, env=env)
+        m = subprocess.run([binary, "min", v["path"], final] + list(extra), stdout=subprocess.PIPE, stderr=subprocess.STDOUT, text=True, errors="replace", env=env)
         if m.returncode != 0 or not os.path.exists(final):
             log("HARNESS-ERROR property=%s seed=%d: minimiser could not reproduce `%s`: %s" % (prop, seed, sig, m.stdout[-300:]))
             harness_error = True
